@@ -59,6 +59,9 @@ class Hist:
         self.buf = 0                # size of the output buffer (0 = none)
         self.dirty = False          # requests issued since the last flush point (with a buffer)
         self.pen_default = True     # the cached pen is empty or all-default
+        self.last_bg = None         # background index of the cached pen
+        self.cache_rgb = None       # ... and its RGB8 secondary value
+        self.last_rgb = None        # the RGB8 value used last
         self.oor = True             # may requests be out of range (not in buffered histories: they suspend judging)
         if vis is None:
             lines.append(f"new {L} {C} {slrm} {colon} {rgb}")
@@ -110,6 +113,7 @@ class Hist:
     def restart(self):
         if not self.pen_default:
             self.emit("setpen", "setpen"); self.rv = False; self.pen_default = True
+            self.last_bg, self.cache_rgb = -1, None
         self.emit("stop", "stop"); self.dirty = False
         self.emit("start", "start")
         dist["restart"] += 1
@@ -247,23 +251,49 @@ class Hist:
     def clear(self):
         self.emit("clear", "clear")
 
-    def pen(self):
-        op = rng.choice(["setpen", "setpen", "chpen"])
+    RGBS = ["0a141e", "0a141f", "000000", "ffffff", "800000", "123456"]
+
+    def pen(self, op=None, bg="any", rgb="any", rvv="any"):
+        """bg: "any" | None | index; rgb: "any" | None | "RRGGBB" (the RGB8 secondary value of the background)."""
+        if op is None:
+            op = rng.choice(["setpen", "setpen", "chpen"])
         toks = []
-        x = rng.random()
-        if x < 0.75:
-            bg = rng.choice([-1, rng.randrange(0, 8), rng.randrange(8, 16), rng.randrange(16, 256), 255, 16, 15, 8, 7, 0])
+        if bg == "any":
+            bg = None
+            if rng.random() < 0.75:
+                bg = rng.choice([-1, rng.randrange(0, 8), rng.randrange(8, 16), rng.randrange(16, 256), 255, 16, 15, 8, 7, 0])
+                # near misses: the index the cache already holds, with another / the same / no RGB8 value
+                if self.last_bg is not None and rng.random() < 0.4:
+                    bg = self.last_bg
+        if rgb == "any":
+            rgb = None
+            x = rng.random()
+            if self.last_rgb is not None and x < 0.25:
+                rgb = self.last_rgb
+            elif x < (0.45 if bg is not None else 0.05):      # without an index the setter must ignore it
+                rgb = rng.choice(self.RGBS)
+        if bg is not None:
             toks.append(f"bg={bg}")
-        y = rng.random()
-        rvv = None
-        if y < 0.7:
-            rvv = rng.choice([0, 1, 1])
+        if rgb is not None:
+            toks.append(f"bgrgb={rgb}")
+            dist["pen:rgb8" + ("" if bg is not None else "-without-index")] += 1
+        if rvv == "any":
+            rvv = rng.choice([0, 1, 1]) if rng.random() < 0.7 else None
+        if rvv is not None:
             toks.append(f"rv={rvv}")
+        if bg is not None and bg == self.last_bg:
+            dist["pen:same-index:%s->%s" % ("rgb" if self.cache_rgb else "plain", "rgb" if rgb is not None else "plain")] += 1
         self.emit(" ".join([op] + toks), op)
         if op == "setpen":
-            self.pen_default = (not toks or toks[0] == "bg=-1" or not toks[0].startswith("bg=")) and not rvv
-        elif (toks and toks[0].startswith("bg=") and toks[0] != "bg=-1") or rvv:
-            self.pen_default = False
+            self.pen_default = bg in (None, -1) and not rvv
+            self.last_bg, self.cache_rgb = (bg if bg is not None else -1), (rgb if bg is not None else None)
+        else:
+            if bg not in (None, -1) or rvv:
+                self.pen_default = False
+            if bg is not None:
+                self.last_bg, self.cache_rgb = bg, rgb
+        if rgb is not None and bg is not None:
+            self.last_rgb = rgb
         if op == "setpen":
             self.rv = bool(rvv) if rvv is not None else False
         elif rvv is not None:
@@ -430,6 +460,34 @@ def random_history(trigger=None):
          "suspend": h.suspend, "restart": h.restart, "flush": h.flush, "outbuf": h.outbuf}[k]()
     if h.buf:
         h.flush()
+
+
+def pen_rgb_history():
+    """Colour steps on ONE palette index: index+RGB8, plain index, index+RGB8 again (same or another value), in every
+    mix of setpen / chpen, each followed by an erase / clear / print whose blanks must have the background asked for."""
+    L, C = rng.choice([(3, 12), (5, 20), (10, 40), size()])
+    L, C = max(L, 2), max(C, 6)
+    h = Hist(L, C, rng.choice([0, 1]), rng.randrange(2), rng.choice([1, 1, 1, 0]))
+    h.oor = False
+    if rng.random() < 0.3:
+        h.outbuf(rng.choice([8, 16, 64, 100]))
+    idx = rng.choice([3, 0, 7, 8, 15, 16, 200, 255, rng.randrange(256)])
+    a = rng.choice(Hist.RGBS); b = rng.choice(Hist.RGBS)
+    steps = rng.choice([[a, None, a], [a, None, a], [a, None, b], [None, a, None, a], [a, a, None, a], [a, b, a], [a, None, None, a]])
+    for k, c in enumerate(steps):
+        i = idx
+        if rng.random() < 0.08: i = rng.choice([-1, (idx + 1) % 256])     # an index change in between
+        h.pen(op=rng.choice(["setpen", "chpen"]), bg=i, rgb=c, rvv=rng.choice([None, None, None, 0]))
+        h.goto(force_abs=True)
+        x = rng.random()
+        if x < 0.6: h.erasech()
+        elif x < 0.75: h.clear()
+        else: h.print_()
+        if h.buf and rng.random() < 0.5: h.flush()
+        if rng.random() < 0.1: h.suspend()
+    if h.buf:
+        h.flush()
+    dist["hist:pen-rgb"] += 1
 
 
 def printf_sweep(lengths, slrm, bufsize=0):
@@ -719,6 +777,8 @@ else:
         rv_erase_sweep(rng.choice([0, 1]))
     for _ in range(25 if a.tier == "quick" else 150):
         order_history()
+    for _ in range(40 if a.tier == "quick" else 300):
+        pen_rgb_history()
     for _ in range(nh):
         random_history()
 
